@@ -9,10 +9,11 @@ CONSTANTS
   BgFix = FALSE
   TrackAttribution = FALSE
   AttrEscapes = 2
+  KvSafeProp = "unsupported"
   EmitEdges = FALSE
 INIT Init
 NEXT Next
 VIEW View
 
-INVARIANTS TypeOK OneDeclaration InnocuousOnReject
+INVARIANTS TypeOK ArgRule OneDeclaration InnocuousOnReject
 CHECK_DEADLOCK FALSE
